@@ -436,6 +436,10 @@ func (x *Exec) ghostSets(st *State, fr *Frame, site string, extra map[string]*Va
 		return
 	}
 	for _, cl := range x.FC.Of("ghost") {
+		if strings.HasPrefix(cl.Text, "mark ") {
+			x.ghostMark(st, site, cl, extra)
+			continue
+		}
 		if !strings.HasPrefix(cl.Text, "set ") || !strings.HasSuffix(cl.Text, "@"+site) {
 			continue
 		}
@@ -470,6 +474,49 @@ func (x *Exec) ghostSets(st *State, fr *Frame, site string, extra map[string]*Va
 		h := st.heapGet(key, ArrSort(SInt, srt))
 		st.Heap[key] = Store(h, obj.Term, val.Term)
 	}
+}
+
+// ghostMark: `ghost mark NAME(a, b) @SITE [when COND]` records the pair in the monotone relation NAME when COND
+// holds at the site (a mark therefore means: at some moment this site was passed with COND true for that pair).
+func (x *Exec) ghostMark(st *State, site string, cl *Clause, extra map[string]*Val) {
+	body := strings.TrimPrefix(cl.Text, "mark ")
+	cond := ""
+	if i := strings.Index(body, " when "); i >= 0 {
+		cond = strings.TrimSpace(body[i+6:])
+		body = body[:i]
+	}
+	i := strings.LastIndex(body, "@")
+	if i < 0 || strings.TrimSpace(body[i+1:]) != site {
+		return
+	}
+	lhs, err := ParseExpr(strings.TrimSpace(body[:i]))
+	if err != nil || lhs.Kind != "call" || len(lhs.Args) != 3 {
+		unsupportedf("ghost mark: expected NAME(a, b) @SITE [when COND]")
+	}
+	env := x.envAt(st, st.Frames[0])
+	env.OldHeap = x.Entry.OldHeap
+	for n, v := range extra {
+		env.Vars[n] = v
+	}
+	if site == "return" {
+		for n, v := range x.Entry.Params {
+			env.Vars[n] = v
+		}
+	}
+	a, b := x.V.eval(env, lhs.Args[1]), x.V.eval(env, lhs.Args[2])
+	c := True
+	if cond != "" {
+		ce, err := ParseExpr(cond)
+		if err != nil {
+			panic(unsupported{err.Error()})
+		}
+		c = x.V.evalBool(env, ce)
+	}
+	fam := "G$mark$" + lhs.Args[0].Op
+	srt := ArrSort(SInt, ArrSort(SInt, SBool))
+	m := st.heapGet(fam, srt)
+	row := Select(m, a.Term)
+	st.Heap[fam] = Store(m, a.Term, Store(row, b.Term, Or(Select(row, b.Term), c)))
 }
 
 func (x *Exec) siteAssertsWith(st *State, fr *Frame, site string, pos token.Pos, extra map[string]*Val) {
@@ -999,6 +1046,9 @@ func (x *Exec) exitFunction(st *State, fr *Frame, res []*Val, panicked bool, pos
 	x.Exits++
 	if x.FC == nil {
 		return
+	}
+	if !panicked {
+		x.ghostSets(st, fr, "return", nil)
 	}
 	env := x.envAt(st, fr)
 	env.OldHeap = x.Entry.OldHeap
